@@ -21,6 +21,7 @@ type RunCfg struct {
 	Repo, Mirror, Tier, Out string
 	DumpSynth, Verbose     bool
 	WritingBaseline        bool
+	EvidenceDir            string
 	VerifDir               string
 }
 
@@ -588,9 +589,13 @@ func checkProperty(cfg *RunCfg, prog *Program, id string, start time.Time) (int,
 			"explanation":              "every obligation is generated from /repo's current working tree on this run; a function is verified against its own contract and callers see only callee contracts",
 		},
 	}
-	os.MkdirAll(filepath.Join(verifDir, "evidence"), 0o755)
+	evDir := filepath.Join(verifDir, "evidence")
+	if cfg.EvidenceDir != "" {
+		evDir = cfg.EvidenceDir
+	}
+	os.MkdirAll(evDir, 0o755)
 	data, _ := json.MarshalIndent(ev, "", " ")
-	os.WriteFile(filepath.Join(verifDir, "evidence", id+".json"), data, 0o644)
+	os.WriteFile(filepath.Join(evDir, id+".json"), data, 0o644)
 
 	if len(engineErrors) > 0 {
 		for _, e := range engineErrors {
